@@ -80,6 +80,18 @@ def _major_of_return(fn, params, r):
         outer, inner = arg.generators
         return _from_loops(fn, params, unparse(outer.target), outer.iter, unparse(inner.target), inner.iter, arg.elt)
     if isinstance(arg, ast.Name):
+        # a local bound once to a two-generator comprehension
+        ds = [st for st in walk_local(fn.node) if isinstance(st, ast.Assign) and len(st.targets) == 1 and isinstance(st.targets[0], ast.Name)
+              and st.targets[0].id == arg.id]
+        if len(ds) == 1 and isinstance(ds[0].value, (ast.ListComp, ast.GeneratorExp)) and len(ds[0].value.generators) == 2:
+            touched = [x for x in calls_in(fn.node) if isinstance(x.func, ast.Attribute) and unparse(x.func.value) == arg.id
+                       and x.func.attr in ("append", "insert", "extend", "reverse", "sort", "pop", "remove")]
+            if touched:
+                raise AnalysisError(f"order algebra: list `{arg.id}` is modified after its comprehension in {fn.qual}")
+            outer, inner = ds[0].value.generators
+            if outer.ifs or inner.ifs:
+                raise AnalysisError(f"order algebra: filtered comprehension in {fn.qual}")
+            return _from_loops(fn, params, unparse(outer.target), outer.iter, unparse(inner.target), inner.iter, ds[0].value.elt)
         lst = arg.id
         loops = [n for n in fn.body if isinstance(n, ast.For)]
         if len(loops) != 1:
